@@ -424,6 +424,89 @@ func c11Direct(b Bounds) *Scenario {
 	}
 }
 
+// c11DirectSeq: every sequence of <=3 records over {nil, empty, "a", LF, 4097 bytes} through
+// channel.Direct, in both directions, sender pipelining and then closing.
+func c11DirectSeq() *Scenario {
+	return &Scenario{
+		Name:   "Direct: every record sequence of length<=3 over {nil, empty, a, LF, 4097 bytes}, both directions",
+		Params: map[string]any{"records": []string{"nil slice", "empty non-nil slice", "a", "\n", "4097 x 'x'"}, "max_len": 3},
+		Seq: func(r *SeqRun) {
+			alpha := [][]byte{nil, {}, []byte("a"), []byte("\n"), bytes.Repeat([]byte("x"), 4097)}
+			var seqs [][]int
+			var gen func(cur []int)
+			gen = func(cur []int) {
+				seqs = append(seqs, append([]int(nil), cur...))
+				if len(cur) < 3 {
+					for i := range alpha {
+						gen(append(cur, i))
+					}
+				}
+			}
+			gen(nil)
+			for _, sq := range seqs {
+				for dir := 0; dir < 2; dir++ {
+					var got [][]byte
+					var errs []string
+					sendErr := ""
+					x := vs.Run(nil, func() {
+						a, b := channel.Direct()
+						if dir == 1 {
+							a, b = b, a
+						}
+						var j Join
+						j.Go("sender", func() {
+							for _, i := range sq {
+								var rec []byte
+								if alpha[i] != nil {
+									rec = append([]byte{}, alpha[i]...)
+								}
+								if err := a.Send(rec); err != nil {
+									sendErr = err.Error()
+								}
+							}
+							a.Close()
+						})
+						j.Go("receiver", func() {
+							for k := 0; k < len(sq)+2; k++ {
+								rec, err := b.Recv()
+								if err != nil {
+									errs = append(errs, err.Error())
+									continue
+								}
+								got = append(got, append([]byte{}, rec...))
+							}
+						})
+						j.Wait()
+					})
+					r.Calls(x.Steps)
+					desc := fmt.Sprintf("Direct dir=%d records %v", dir, sq)
+					r.Case(fmt.Sprintf("direct/%d", len(sq)), true)
+					Hit("C11.R1")
+					if x.Outcome != "ok" {
+						r.Fail("C11.R1", desc, "run ended with "+x.Outcome+" "+firstLine(x.Detail), "")
+						continue
+					}
+					if sendErr != "" {
+						r.Fail("C11.R1", desc, "Send failed: "+sendErr, "")
+					}
+					ok := len(got) == len(sq) && len(errs) == 2 && errs[0] == "EOF" && errs[1] == "EOF"
+					for k := 0; ok && k < len(sq); k++ {
+						ok = bytes.Equal(got[k], alpha[sq[k]])
+					}
+					if !ok {
+						var lens []int
+						for _, g := range got {
+							lens = append(lens, len(g))
+						}
+						r.Fail("C11.R1", desc, fmt.Sprintf("received %d records (lengths %v) and errors %v; want the %d records sent, then EOF, EOF", len(got), lens, errs, len(sq)), "")
+					}
+				}
+			}
+			r.Sample(map[string]any{"records": []string{"a", "nil", "a"}})
+		},
+	}
+}
+
 func c11Scenarios(tier string) []*Scenario {
 	var out []*Scenario
 	q := tier == "quick"
@@ -447,7 +530,7 @@ func c11Scenarios(tier string) []*Scenario {
 			out = append(out, c11Sizes(fs, big, 3))
 		}
 	}
-	out = append(out, c11SplitGuard())
+	out = append(out, c11SplitGuard(), c11DirectSeq())
 	if q {
 		out = append(out, c11Direct(Bounds{3, -1, 0}))
 	} else {
